@@ -24,6 +24,13 @@ struct State {
     bool is_static = false;
     int nlines = 1;
     std::vector<TriplineType> lines;  // explicit mode
+    // explicit mode with knob handover=1: the creator gives its references away before the
+    // threads start — triggers are made up front, detectors are copies of a prototype — so
+    // that the trigger may be the last owner that can write the flag: a detector must keep
+    // the line alive by itself and still report "tripped" afterwards
+    bool handover = false;
+    std::vector<std::unique_ptr<TripWireTrigger>> pre_trigger;
+    std::vector<TripWireDetector> proto;
     long datum[MAXL] = {0};  // plain data published by the trigger thread
     // oracle
     bool destroy_begun[MAXL] = {false};
@@ -33,12 +40,17 @@ State* S;
 
 std::unique_ptr<TripWireTrigger> make_trigger(int line)
 {
+    if (S->handover) {
+        if (!S->pre_trigger[(size_t)line]) gsim::fail("harness", "two triggers on one line");
+        return std::move(S->pre_trigger[(size_t)line]);
+    }
     if (!S->is_static) return std::make_unique<TripWireTrigger>(S->lines[(size_t)line]);
     if (line == 0) return std::make_unique<TripWireTrigger>();
     return std::make_unique<TripWireTrigger>((unsigned)(line - 1));
 }
 TripWireDetector make_detector(int line)
 {
+    if (S->handover) return S->proto[(size_t)line];
     if (!S->is_static) return TripWireDetector(S->lines[(size_t)line]);
     if (line == 0) return TripWireDetector();
     return TripWireDetector((unsigned)(line - 1));
@@ -70,6 +82,11 @@ void do_trigger(gsim::Op op)
         TripWireDetector dx(lx), dy(ly);
         auto keeper = std::make_unique<TripWireTrigger>(lx);
         auto temp = std::make_unique<TripWireTrigger>(ly);
+        if (op.c & 1) {
+            // the creator lets go of its own references: detectors and triggers are on their own
+            lx.reset();
+            ly.reset();
+        }
         *keeper = std::move(*temp);
         bool x0 = dx.isTripped(), y0 = dy.isTripped();
         temp.reset();
@@ -234,6 +251,20 @@ void run()
         if (gsim::knob("make_many", 0, 1)) st.lines = make_triplines(st.nlines);
         else
             for (int i = 0; i < st.nlines; i++) st.lines.push_back(make_tripline());
+        if (gsim::knob("handover", 0, 1)) {
+            bool used[MAXL] = {false};
+            for (int t = 0; t < gsim::prog_nthreads(); t++)
+                for (int i = 0; i < gsim::prog_len(t); i++)
+                    if (gsim::prog_op(t, i).code == OP_TRIGGER) used[gsim::prog_op(t, i).a % st.nlines] = true;
+            for (int i = 0; i < st.nlines; i++) {
+                st.proto.emplace_back(st.lines[(size_t)i]);
+                st.pre_trigger.push_back(used[i] ? std::make_unique<TripWireTrigger>(st.lines[(size_t)i])
+                                                 : nullptr);
+            }
+            st.lines.clear();
+            st.handover = true;
+            gsim::probe("trip.creator_handed_over");
+        }
     }
     wl::run_program(body);
     gsim::faults_off();
@@ -257,6 +288,8 @@ void run()
     {
         gsim::Oracle o;
         st.lines.clear();
+        st.proto.clear();
+        st.pre_trigger.clear();
     }
     S = nullptr;
 }
